@@ -143,11 +143,12 @@ func DrawOT(t *rt.Tape, tier string) int {
 	}
 }
 
-func init() {
-	core.Register("C02", func(tier string) core.World { return &c02{tier: tier} })
+// C02 is the world of property C02. Compiled, if set, supplies circuits
+// compiled from MPCL programs (with parsed inputs) for a share of the cases.
+type C02 struct {
+	Tier     string
+	Compiled func(t *rt.Tape) (*circuit.Circuit, []*big.Int, string)
 }
-
-type c02 struct{ tier string }
 
 // Sample is the written-out case of a two-party run.
 type Sample struct {
@@ -165,15 +166,16 @@ func DrawPipe(t *rt.Tape) (simnet.PipeConfig, bool) {
 	return simnet.PipeConfig{AB: ge, BA: eg}, s1 || s2
 }
 
-func (w *c02) Run(t *rt.Tape, trace bool) *core.Result {
-	res := &core.Result{}
+// Run executes one case.
+func (w *C02) Run(t *rt.Tape, trace bool) *core.Result {
+	res := &core.Result{Reach: map[string]int{}}
 	core.BeginRun(t)
 	pipe, small := DrawPipe(t)
 	opts := gen.CircuitOpts{}
 	if small {
 		opts.MaxGates = 60
 	}
-	kind := DrawOT(t, w.tier)
+	kind := DrawOT(t, w.Tier)
 	if small && (kind == OTRSA1024 || kind == OTRSA2048 || kind == OTCOT || kind == OTCOTMal) && t.Choose(rt.SGen, 4) != 0 {
 		kind = OTCO // byte-wise delivery of kilobyte OT messages is slow; keep some
 	}
@@ -182,6 +184,15 @@ func (w *c02) Run(t *rt.Tape, trace bool) *core.Result {
 	}
 	circ := gen.Circuit(t, opts)
 	in := gen.Inputs(t, circ)
+	if w.Compiled != nil && !small && t.Choose(rt.SGen, 5) == 0 {
+		// a circuit compiled from an MPCL program (compound and array arguments,
+		// multi-output signatures as the compiler produces them)
+		if c2, in2, name := w.Compiled(t); c2 != nil && c2.NumGates <= 20000 && (kind == OTCO || kind == OTCOT || kind == OTCOTMal || int(c2.Inputs[1].Type.Bits) <= 16) {
+			circ, in = c2, in2
+			res.Reach["circuit.compiled-from-mpcl"]++
+			res.Class = "compiled:" + name
+		}
+	}
 	res.Sample = Sample{Circuit: gen.Describe(circ), X: in[0].Text(16), Y: in[1].Text(16), OT: OTNames[kind], GE: core.DescribeDir(pipe.AB), EG: core.DescribeDir(pipe.BA)}
 	res.Class = "ot=" + OTNames[kind]
 	want := gen.Eval(circ, in)
@@ -225,7 +236,7 @@ func (w *c02) Run(t *rt.Tape, trace bool) *core.Result {
 	if !gen.EqualOutputs(o.GOut, want) {
 		return fail("wrong-result", fmt.Sprintf("protocol %s, truth table %s", gen.FmtInts(o.GOut), gen.FmtInts(want)))
 	}
-	got, err := circ.Compute(in)
+	got, err := circ.Compute(gen.FlattenInputs(circ, in))
 	if err != nil || !gen.EqualOutputs(got, want) {
 		return fail("compute-disagrees", fmt.Sprintf("Circuit.Compute %s err=%v, truth table %s", gen.FmtInts(got), err, gen.FmtInts(want)))
 	}
